@@ -11,6 +11,7 @@ var registry = map[string]core.Harness{
 	"C23": TXN{Prop: "C23"},
 	"C25": TXN{Prop: "C25"},
 	"C27": KL{},
+	"C24": CON{},
 }
 
 func TestSim(t *testing.T) { core.WorkerMain(t, registry) }
